@@ -13,10 +13,12 @@ import (
 	"testing"
 
 	corev1 "k8s.io/api/core/v1"
+	"k8s.io/client-go/tools/cache"
 	"k8s.io/klog/v2"
 	"k8s.io/kubernetes/pkg/scheduler/framework"
 	"pgregory.net/rapid"
 
+	"github.com/koordinator-sh/koordinator/apis/extension"
 	"github.com/koordinator-sh/koordinator/apis/thirdparty/scheduler-plugins/pkg/apis/scheduling/v1alpha1"
 	"github.com/koordinator-sh/koordinator/pkg/scheduler/apis/config"
 	frameworkexthelper "github.com/koordinator-sh/koordinator/pkg/scheduler/frameworkext/helper"
@@ -38,7 +40,23 @@ func c01Quiet() {
 	klog.SetOutput(io.Discard)
 }
 
-type c01PluginDriver struct{ pl *Plugin }
+type c01PluginDriver struct {
+	pl     *Plugin
+	counts map[string]int
+}
+
+// c01Tombstone: a delete the watch missed is replayed by the informer as a cache.DeletedFinalStateUnknown VALUE holding
+// the last known object. Which deletes take that form is derived from generated data (name and resource version of the
+// object, i.e. how often it was updated), not drawn, so the draw sequence of a history stays what it was.
+func c01Tombstone(name, resourceVersion string) bool {
+	n := int(name[len(name)-1])
+	if resourceVersion != "" {
+		n += int(resourceVersion[len(resourceVersion)-1])
+	}
+	return n%2 == 1
+}
+
+func (d *c01PluginDriver) c01Counts() map[string]int { return d.counts }
 
 func (d *c01PluginDriver) Manager() *c01Manager { return d.pl.groupQuotaManager }
 
@@ -51,14 +69,26 @@ func (d *c01PluginDriver) QuotaUpsert(old, new *v1alpha1.ElasticQuota) error {
 	return nil
 }
 func (d *c01PluginDriver) QuotaDelete(obj *v1alpha1.ElasticQuota) error {
-	d.pl.OnQuotaDelete(obj)
+	if c01Tombstone(obj.Name, obj.ResourceVersion) {
+		d.counts["quota-delete-delivered-as-tombstone"]++
+		d.pl.OnQuotaDelete(cache.DeletedFinalStateUnknown{Key: obj.Namespace + "/" + obj.Name, Obj: obj})
+	} else {
+		d.pl.OnQuotaDelete(obj)
+	}
 	return nil
 }
 func (d *c01PluginDriver) PodAdd(_ string, pod *corev1.Pod) { d.pl.OnPodAdd(pod) }
 func (d *c01PluginDriver) PodUpdate(_, _ string, newPod, oldPod *corev1.Pod) {
 	d.pl.OnPodUpdate(oldPod, newPod)
 }
-func (d *c01PluginDriver) PodDelete(_ string, pod *corev1.Pod) { d.pl.OnPodDelete(pod) }
+func (d *c01PluginDriver) PodDelete(_ string, pod *corev1.Pod) {
+	if c01Tombstone(pod.Name, pod.ResourceVersion) {
+		d.counts["pod-delete-delivered-as-tombstone"]++
+		d.pl.OnPodDelete(cache.DeletedFinalStateUnknown{Key: pod.Namespace + "/" + pod.Name, Obj: pod})
+	} else {
+		d.pl.OnPodDelete(pod)
+	}
+}
 func (d *c01PluginDriver) Reserve(_ string, assumed *corev1.Pod) {
 	d.pl.Reserve(context.TODO(), framework.NewCycleState(), assumed, assumed.Spec.NodeName)
 }
@@ -66,9 +96,27 @@ func (d *c01PluginDriver) Unreserve(_ string, assumed *corev1.Pod) {
 	d.pl.Unreserve(context.TODO(), framework.NewCycleState(), assumed, assumed.Spec.NodeName)
 }
 func (d *c01PluginDriver) MigrateCycle(func(string) string) { d.pl.migrateDefaultQuotaGroupsPod() }
-func (d *c01PluginDriver) NodeAdd(n *corev1.Node)           { d.pl.OnNodeAdd(n) }
-func (d *c01PluginDriver) NodeUpdate(old, n *corev1.Node)   { d.pl.OnNodeUpdate(old, n) }
-func (d *c01PluginDriver) NodeDelete(n *corev1.Node)        { d.pl.OnNodeDelete(n) }
+
+// MigrateSnapshot / MigrateOne: Plugin.migrateDefaultQuotaGroupsPod split at the point where the other goroutines get in,
+// between taking the snapshot of the default quota's pods and the loop body for one pod (routing by the plugin itself).
+func (d *c01PluginDriver) MigrateSnapshot() map[string]*corev1.Pod {
+	return d.pl.groupQuotaManager.GetQuotaInfoByName(extension.DefaultQuotaName).GetPodCache()
+}
+
+func (d *c01PluginDriver) MigrateOne(pod *corev1.Pod, _ func(string) string) {
+	quotaName, treeID := d.pl.getPodAssociateQuotaNameAndTreeID(pod)
+	if quotaName == extension.DefaultQuotaName {
+		return
+	}
+	curMgr := d.pl.GetGroupQuotaManagerForTree(treeID)
+	if curMgr == nil || curMgr.GetQuotaInfoByName(quotaName) == nil {
+		return
+	}
+	curMgr.MigratePod(pod, extension.DefaultQuotaName, quotaName)
+}
+func (d *c01PluginDriver) NodeAdd(n *corev1.Node)         { d.pl.OnNodeAdd(n) }
+func (d *c01PluginDriver) NodeUpdate(old, n *corev1.Node) { d.pl.OnNodeUpdate(old, n) }
+func (d *c01PluginDriver) NodeDelete(n *corev1.Node)      { d.pl.OnNodeDelete(n) }
 
 // c01PluginMaker: one suite (fake clients, framework handle) for the whole test; every case gets a fresh Plugin from it.
 // The plugin's informers are never started: events reach it only through the handler calls made by the driver.
@@ -85,7 +133,7 @@ func c01PluginMaker(t *testing.T) func(scaleMin bool, sysMax, defMax corev1.Reso
 		if err != nil {
 			t.Fatalf("cannot create plugin: %v", err)
 		}
-		return &c01PluginDriver{p.(*Plugin)}
+		return &c01PluginDriver{pl: p.(*Plugin), counts: map[string]int{}}
 	}
 }
 
@@ -99,4 +147,10 @@ func TestVerifC01PluginParked(t *testing.T) {
 	rec := vk.New(t, "C01", "pluginParkedReserve")
 	mk := c01PluginMaker(t)
 	rapid.Check(t, func(t *rapid.T) { c01RunParked(t, rec, mk) })
+}
+
+func TestVerifC01PluginMigrateRace(t *testing.T) {
+	rec := vk.New(t, "C01", "pluginMigrateRace")
+	mk := c01PluginMaker(t)
+	rapid.Check(t, func(t *rapid.T) { c01RunMigrateRace(t, rec, mk) })
 }
